@@ -767,6 +767,14 @@ def run(ctx, rep):
             if f.cls and any(k.endswith(".Lexer") or k == "Lexer" for k in [b for c_ in ix.mro(f.cls) for b in ([c_] + list(getattr(ix.classes.get(c_), "bases", []) or []))]):
                 # a lexer rule converts the matched text: a str, so only ValueError is possible
                 need = {"ValueError"}
+            # the value is known to be an int (the conversion sits in a branch taken under isinstance(x, int)):
+            # float(int) fails with OverflowError only
+            a0 = conv[0].args[0]
+            if conv[0].func.id == "float" and isinstance(a0, ast.Name):
+                from .wave3 import _enclosing_ifs as _eifs
+                for t_, taken_ in _eifs(f.node, tr_):
+                    if taken_ and isinstance(t_, ast.Call) and isinstance(t_.func, ast.Name) and t_.func.id == "isinstance" and isinstance(t_.args[0], ast.Name) and t_.args[0].id == a0.id and ast.unparse(t_.args[1]) == "int":
+                        need = {"OverflowError"}
             missing = need - covered
             loc = f"{f.path}:{tr_.lineno}"
             if missing:
